@@ -45,10 +45,12 @@ partial def itemOf : Sexp → Option Item
 
 def proofOf (s : Sexp) : Option (List Item) := do (← s.toList?).mapM itemOf
 
+/-- The theorem table is a dict on the Python side: entries are installed one by one. -/
 def thmsOf (s : Sexp) : Option (List (String × Seq)) := do
-  (← s.toList?).mapM fun
+  let l ← (← s.toList?).mapM fun
     | .list [.atom n, q] => do some (n, ← seqOf q)
     | _ => none
+  some (l.foldl (fun acc p => upsert p.1 p.2 acc) [])
 
 def extOf : Sexp → Option Ext
   | .atom "other" => some .other
